@@ -507,6 +507,9 @@ class InputSchemaBuilder(
                     aliaser=self.aliaser,
                     conversion=field.deserialization,
                 )
+                # the values of a GraphQL enum are the members themselves
+                if isinstance(field_default, Enum) and field.deserialization is None:
+                    default = field_default
             except Exception:
                 field_type = Optional[field_type]
         factory = self.visit_with_conv(field_type, field.deserialization)
@@ -688,6 +691,12 @@ class OutputSchemaBuilder(
                             fall_back_on_any=False,
                             check_type=True,
                         )
+                        # the values of a GraphQL enum are the members themselves
+                        if (
+                            isinstance(param.default, Enum)
+                            and param_field.deserialization is None
+                        ):
+                            default = param.default
                     except Exception:
                         param_type = Optional[param_type]
                 arg_factory = self.input_builder.visit_with_conv(
